@@ -464,6 +464,9 @@ TF["concat"] = TF["cat"]
 TF["stack"] = lambda tensors, dim=0: ops.stack(list(tensors), dim)
 TF["roll"] = lambda t, shifts, dims: ops.roll(t, shifts, dims)
 TF["where"] = lambda c, a, b: ops.where(c, a, b)
+# torch.lerp(start, end, weight) = start + weight * (end - start)   (documented definition; reals, A1)
+TF["lerp"] = lambda a, b, w: ops.binop("add", a, ops.binop("mul", w, ops.binop("sub", b, a)))
+TM["lerp"] = TF["lerp"]
 TF["squeeze"] = TM["squeeze"]
 TF["unsqueeze"] = TM["unsqueeze"]
 TF["transpose"] = TM["transpose"]
